@@ -19,6 +19,15 @@ MCConfigsBig2 == MCConfigsBig \cup Thr(MCConfigsBig)
 \* throttling rules only (mutant run)
 MCConfigsThr  == Thr(MCConfigs)
 
+\* reloads: a healthy rule replaced by another healthy rule with the same control behaviour and a changed threshold,
+\* period or cold factor.  Small set (quick) / larger set (thorough).
+RLConfigs    == { x \in { Cfg(t, 1, p, c) : t \in {2, 10}, p \in {1, 5}, c \in {2, 3} } \cup Thr({ Cfg(t, 1, p, c) : t \in {2, 10}, p \in {1, 5}, c \in {2, 3} }) : Healthy(x) }
+RLConfigsBig == { x \in { Cfg(t[1], t[2], p, c) : t \in {<<2, 1>>, <<5, 2>>, <<5, 1>>, <<10, 1>>, <<20, 1>>}, p \in {1, 2, 5}, c \in {0, 2, 5} }
+                       \cup Thr({ Cfg(t[1], t[2], p, c) : t \in {<<2, 1>>, <<5, 2>>, <<5, 1>>, <<10, 1>>, <<20, 1>>}, p \in {1, 2, 5}, c \in {0, 2, 5} }) : Healthy(x) }
+NoTargets(c)    == {}
+RLTargets(c)    == { x \in RLConfigs : x.cb = c.cb /\ x # c }
+RLTargetsBig(c) == { x \in RLConfigsBig : x.cb = c.cb /\ x # c }
+
 ScopeHealthy(c)      == Healthy(c)
 ScopeDegenerate(c)   == Degenerate(c)
 ScopeColdBelowOne(c) == ColdBelowOne(c)
